@@ -20,8 +20,8 @@ use quote::{format_ident, quote, quote_spanned, ToTokens};
 use syn::spanned::Spanned;
 use syn::{
     parse::{Parse, ParseStream},
-    parse_macro_input, parse_quote, Attribute, Data, DeriveInput, Fields, GenericParam, Generics,
-    Ident, Index, LitStr, Meta, Token,
+    parse_macro_input, parse_quote, Attribute, Data, DeriveInput, Field, Fields, GenericParam,
+    Generics, Ident, Index, LitStr, Meta, Token, Type,
 };
 
 /// Implementation of `[#derive(Visit)]`
@@ -156,6 +156,29 @@ impl Attributes {
     }
 }
 
+/// Returns true if the type of the field is written `Vec<..>`
+fn is_vec(ty: &Type) -> bool {
+    match ty {
+        Type::Path(ty) => ty.path.segments.last().is_some_and(|s| s.ident == "Vec"),
+        _ => false,
+    }
+}
+
+/// Generates the visit of the field `f`, where `s` is a reference to its value.
+///
+/// The methods named by `#[visit(with = "...")]` are invoked on the field, or,
+/// if the field is a `Vec`, on each of its elements in order.
+fn visit_field(f: &Field, s: TokenStream, visit_trait: &TokenStream) -> TokenStream {
+    let attributes = Attributes::parse(&f.attrs);
+    if attributes.with.is_some() && is_vec(&f.ty) {
+        let (pre_visit, post_visit) = attributes.visit(quote!(item));
+        quote_spanned!(f.span() => for item in #s { #pre_visit sqlparser::ast::#visit_trait::visit(item, visitor)?; #post_visit })
+    } else {
+        let (pre_visit, post_visit) = attributes.visit(s.clone());
+        quote_spanned!(f.span() => #pre_visit sqlparser::ast::#visit_trait::visit(#s, visitor)?; #post_visit)
+    }
+}
+
 // Add a bound `T: Visit` to every type parameter T.
 fn add_trait_bounds(mut generics: Generics, VisitType { visit_trait, .. }: &VisitType) -> Generics {
     for param in &mut generics.params {
@@ -182,9 +205,7 @@ fn visit_children(
             Fields::Named(fields) => {
                 let recurse = fields.named.iter().map(|f| {
                     let name = &f.ident;
-                    let attributes = Attributes::parse(&f.attrs);
-                    let (pre_visit, post_visit) = attributes.visit(quote!(&#modifier self.#name));
-                    quote_spanned!(f.span() => #pre_visit sqlparser::ast::#visit_trait::visit(&#modifier self.#name, visitor)?; #post_visit)
+                    visit_field(f, quote!(&#modifier self.#name), visit_trait)
                 });
                 quote! {
                     #(#recurse)*
@@ -193,9 +214,7 @@ fn visit_children(
             Fields::Unnamed(fields) => {
                 let recurse = fields.unnamed.iter().enumerate().map(|(i, f)| {
                     let index = Index::from(i);
-                    let attributes = Attributes::parse(&f.attrs);
-                    let (pre_visit, post_visit) = attributes.visit(quote!(&self.#index));
-                    quote_spanned!(f.span() => #pre_visit sqlparser::ast::#visit_trait::visit(&#modifier self.#index, visitor)?; #post_visit)
+                    visit_field(f, quote!(&#modifier self.#index), visit_trait)
                 });
                 quote! {
                     #(#recurse)*
@@ -213,9 +232,7 @@ fn visit_children(
                         let names = fields.named.iter().map(|f| &f.ident);
                         let visit = fields.named.iter().map(|f| {
                             let name = &f.ident;
-                            let attributes = Attributes::parse(&f.attrs);
-                            let (pre_visit, post_visit) = attributes.visit(name.to_token_stream());
-                            quote_spanned!(f.span() => #pre_visit sqlparser::ast::#visit_trait::visit(#name, visitor)?; #post_visit)
+                            visit_field(f, name.to_token_stream(), visit_trait)
                         });
 
                         quote!(
@@ -225,12 +242,14 @@ fn visit_children(
                         )
                     }
                     Fields::Unnamed(fields) => {
-                        let names = fields.unnamed.iter().enumerate().map(|(i, f)| format_ident!("_{}", i, span = f.span()));
+                        let names = fields
+                            .unnamed
+                            .iter()
+                            .enumerate()
+                            .map(|(i, f)| format_ident!("_{}", i, span = f.span()));
                         let visit = fields.unnamed.iter().enumerate().map(|(i, f)| {
                             let name = format_ident!("_{}", i);
-                            let attributes = Attributes::parse(&f.attrs);
-                            let (pre_visit, post_visit) = attributes.visit(name.to_token_stream());
-                            quote_spanned!(f.span() => #pre_visit sqlparser::ast::#visit_trait::visit(#name, visitor)?; #post_visit)
+                            visit_field(f, name.to_token_stream(), visit_trait)
                         });
 
                         quote! {
